@@ -2960,6 +2960,15 @@ func (svStream) Same(goOut, modelOut string) bool {
 	if strings.HasPrefix(goOut, "err twoPositions ") && strings.HasPrefix(modelOut, "err twoPositions ") {
 		return true
 	}
+	// a tree with TWO faults in the group lists of a multiplexer (a dangling entry and a child with two
+	// positions, from two stacked mutations): the code walks the entries of a group as a Go map and
+	// reports whichever fault it meets first, the model the first in list order; both refuse
+	groupFault := func(o string) bool {
+		return strings.HasPrefix(o, "err twoPositions ") || strings.HasPrefix(o, "err notFound ")
+	}
+	if groupFault(goOut) && groupFault(modelOut) {
+		return true
+	}
 	// a refusal of the placement: the model names the cause; for a multiplexer with several faults
 	// it lists every cause the code may meet first (the entries of a group are a Go map)
 	if g, ok := strings.CutPrefix(goOut, "err geom "); ok {
